@@ -294,5 +294,209 @@ Proof.
     intros x Hx. apply (Hsubn n). unfold sel. rewrite firstn_map. exact Hx.
 Qed.
 
+(* ---------- readers of two kinds in one pool: read by key (two steps) and metadata / index lookup (one step) ---------- *)
+Inductive rop := RRead (k : bytes) | RMeta (k : bytes).
+Inductive robs := OBytes (r : res bytes) | OMeta (r : res (option meta)).
+Definition wrapB (r : res bytes) : prog robs := Ret (OBytes r).
+Definition wrapM (r : res (option meta)) : prog robs := Ret (OMeta r).
+Definition rprog (op : rop) : prog robs :=
+  match op with RRead k => bind (read hash k) wrapB | RMeta k => bind (find hash k) wrapM end.
+(* the operation run atomically on a tree *)
+Definition ranswer (op : rop) (f : fs) : robs :=
+  match op with RRead k => OBytes (fst (run (read hash k) f)) | RMeta k => OMeta (fst (run (find hash k) f)) end.
+
+Lemma find_head k :
+  exists kk g, find hash k = Do (ReadFile (InCache (bucket_path hash k))) kk /\ (forall r, kk r = Ret (g r)) /\
+               forall f, fst (run (find hash k) f) = g (fst (exec (ReadFile (InCache (bucket_path hash k))) f)).
+Proof.
+  eexists. exists (fun r => match r with RBytes d => Ok (find_in k (entries hash d)) | RErr ENOENT => Ok (find_in k []) | RErr _ => Err EIoErr | _ => Stuck end).
+  split; [reflexivity|]. split.
+  - intros r. destruct r as [|d| | | | |e]; try reflexivity. destruct e; reflexivity.
+  - intros f. unfold find, bucket_entries, rbind. cbn [bind run].
+    destruct (exec (ReadFile (InCache (bucket_path hash k))) f) as [r g] eqn:Ex. cbn [fst].
+    destruct r as [|d| | | | |e]; try reflexivity. destruct e; reflexivity.
+Qed.
+
+Inductive rstd2 (op : rop) (done : list nat) (f : fs) : prog robs -> Prop :=
+| S0 : rstd2 op done f (rprog op)
+| S1 k n f1 : op = RRead k -> (n <= List.length done)%nat -> GS ws f0 (firstn n done) f1 -> cmono f1 f ->
+              rstd2 op done f (bind (phase2 hash k f1) wrapB)
+| S2 n f1 : (n <= List.length done)%nat -> GS ws f0 (firstn n done) f1 -> rstd2 op done f (Ret (ranswer op f1)).
+
+Lemma rstd2_grow op done ext f f' r : rstd2 op done f r -> cmono f f' -> rstd2 op (done ++ ext) f' r.
+Proof.
+  intros H Hm. destruct H as [|k n f1 Eo Hn Hg Hm1|n f1 Hn Hg].
+  - apply S0.
+  - apply (S1 op (done ++ ext) f' k n f1 Eo); [rewrite app_length; lia|rewrite (firstn_app_le n done ext Hn); exact Hg|exact (cmono_trans _ _ _ Hm1 Hm)].
+  - apply (S2 op (done ++ ext) f' n f1); [rewrite app_length; lia|rewrite (firstn_app_le n done ext Hn); exact Hg].
+Qed.
+
+Lemma bind_do {A B} (p : prog A) (w : A -> B) c K :
+  Do c K = bind p (fun r => Ret (w r)) -> exists kk, p = Do c kk /\ forall r, K r = bind (kk r) (fun r => Ret (w r)).
+Proof.
+  destruct p as [a|c0 kk]; cbn [bind]; intros E; [discriminate|].
+  injection E as Ec Ek. subst c0. exists kk. split; [reflexivity|]. intros r. rewrite Ek. reflexivity.
+Qed.
+
+Lemma rstd2_read_step op done pl f c K :
+  GS ws f0 done f -> PInvWd hash ws f0 done (pl, f) -> rstd2 op done f (Do c K) ->
+  snd (exec c f) = f /\ rstd2 op done f (K (fst (exec c f))).
+Proof.
+  intros Hg Hi H. remember (Do c K) as r eqn:Er. destruct H as [|k n f1 Eo Hn Hg1 Hm1|n f1 Hn Hg1].
+  - destruct op as [k|k]; unfold rprog, wrapB, wrapM in Er.
+    + destruct (bind_do _ _ _ _ (eq_sym Er)) as [kk [Ep Hk]].
+      destruct (read_head hash k) as [k1 [E Hk1]]. rewrite E in Ep. injection Ep as Ec Ek. subst c kk.
+      split; [apply readfile_same|]. rewrite Hk, (Hk1 f (proj1 (gs_facts done f Hg))).
+      apply (S1 (RRead k) done f k (List.length done) f eq_refl); [lia|rewrite firstn_all; exact Hg|apply cmono_refl].
+    + destruct (bind_do _ _ _ _ (eq_sym Er)) as [kk [Ep Hk]].
+      destruct (find_head k) as [k1 [g [E [Hk1 Hrun]]]]. rewrite E in Ep. injection Ep as Ec Ek. subst c kk.
+      split; [apply readfile_same|]. rewrite Hk, Hk1. cbn [bind]. rewrite <- Hrun.
+      apply (S2 (RMeta k) done f (List.length done) f); [lia|rewrite firstn_all; exact Hg].
+  - subst op. unfold wrapB in Er. destruct (bind_do _ _ _ _ (eq_sym Er)) as [kk [Ep Hk]].
+    destruct (gs_facts _ f1 Hg1) as [Hi1 Hb1].
+    unfold phase2 in Ep. destruct (abs_idx hash f1 k) as [m|] eqn:Ea; [|discriminate].
+    destruct (Hb1 k m Ea) as [p [d [Hp [Hl Hc]]]].
+    destruct (read_hash_head hash (m_sri m) p Hp) as [k1 [E Hk1]]. rewrite E in Ep. injection Ep as Ec Ek. subst c kk.
+    split; [apply readfile_same|]. rewrite Hk, Hk1. cbn [bind].
+    assert (lookup f (InCache p) = Some (File d)) as Hl2 by exact (Hm1 _ _ (content_path_content _ _ Hp) Hl).
+    assert (fst (run (read hash k) f1) = rh_answer hash (m_sri m) (fst (exec (ReadFile (InCache p)) f))) as <-.
+    { rewrite (phase2_run hash k f1 Hi1). unfold phase2. rewrite Ea, E. cbn [run].
+      rewrite (exec_readfile_file _ _ _ Hl), (exec_readfile_file _ _ _ Hl2). rewrite Hk1. reflexivity. }
+    exact (S2 (RRead k) done f n f1 Hn Hg1).
+  - discriminate.
+Qed.
+
+Definition OInv2 (ops : list rop) (st : pool (res integrity) * pool robs * fs) : Prop :=
+  let '(pl, rl, f) := st in
+  exists done, PInvWd hash ws f0 done (pl, f) /\ CProv hash ws f0 f /\ cmono f0 f /\
+    List.length rl = List.length ops /\
+    forall j, (j < List.length ops)%nat -> rstd2 (nth j ops (RMeta [])) done f (nth j rl (Ret (OMeta Stuck))).
+
+Lemma OInv2_init ops : OInv2 ops (map (wprog hash) ws, map rprog ops, f0).
+Proof.
+  exists []. split; [exact (PInvWd_init hash ws f0 Hinv0)|]. split; [apply cprov_init|]. split; [apply cmono_refl|].
+  split; [apply map_length|]. intros j Hj.
+  rewrite (nth_indep _ (Ret (OMeta Stuck)) (rprog (RMeta []))) by (rewrite map_length; exact Hj).
+  rewrite (map_nth rprog ops (RMeta []) j). apply S0.
+Qed.
+
+Lemma OInv2_step ops st st' : OInv2 ops st -> ostep st st' -> OInv2 ops st'.
+Proof.
+  intros Hinv Hs. destruct Hs as [pl pl' rl f f' Hp|pl rl rl' f f' Hp].
+  - destruct Hinv as [done [Hi [Hpv [Hm [Hlen Hst]]]]].
+    destruct (PInvWd_step hash HL ws f0 done _ _ Hcf Hwf Hi Hp) as [ext Hi'].
+    destruct (cprov_step hash ws f0 pl f pl' f' Hcf Hc0 (ex_intro _ done Hi) Hpv Hp) as [Hpv' Hm'].
+    exists (done ++ ext). split; [exact Hi'|]. split; [exact Hpv'|]. split; [exact (cmono_trans _ _ _ Hm Hm')|]. split; [exact Hlen|].
+    intros j Hj. exact (rstd2_grow _ _ ext _ _ _ (Hst j Hj) Hm').
+  - destruct Hinv as [done [Hi [Hpv [Hm [Hlen Hst]]]]]. inversion Hp as [pre c k post f1 E1 E2]. subst rl f1 rl'.
+    set (j0 := List.length pre).
+    assert (j0 < List.length ops)%nat as Hj0 by (rewrite <- Hlen, app_length; cbn [List.length]; lia).
+    pose proof (Hst j0 Hj0) as Hrj. unfold j0 in Hrj at 2. rewrite nth_mid in Hrj.
+    assert (GS ws f0 done f) as Hg by (exists pl; auto).
+    destruct (rstd2_read_step _ done pl f c k Hg Hi Hrj) as [Hsame Hnew]. rewrite Hsame.
+    exists done. split; [exact Hi|]. split; [exact Hpv|]. split; [exact Hm|]. split; [rewrite <- Hlen, !app_length; reflexivity|].
+    intros j Hj. destruct (Nat.eq_dec j j0) as [->|Hne].
+    + unfold j0 at 2. rewrite nth_mid. exact Hnew.
+    + rewrite (nth_other pre post _ (Do c k)) by exact Hne. exact (Hst j Hj).
+Qed.
+
+Lemma OInv2_reach ops st st' : OInv2 ops st -> oreach st st' -> OInv2 ops st'.
+Proof. intros Hi Hr. induction Hr as [s|s1 s2 s3 Hs _ IH]; [exact Hi|]. exact (IH (OInv2_step ops _ _ Hi Hs)). Qed.
+
+(* the index after running a list of the threads' operations one after the other *)
+Lemma kv_step_abs f x k :
+  CacheInv f -> kv_ok hash (kv_of x) = true ->
+  CacheInv (kv_run hash f (kv_of x)) /\ abs_idx hash (kv_run hash f (kv_of x)) k = spec_step (abs_idx hash f) (x_hop hash x) k.
+Proof.
+  intros Hinv Hk. unfold kv_of, x_hop in *. destruct (ws_rm x); cbn [kv_run kv_ok spec_step] in *.
+  - pose proof (opts_ok_wf_rec hash _ _ _ Hk) as Hw.
+    destruct (remove_scope hash f (ws_key x) (ws_now x) (proj1 Hinv) Hw) as [_ [Hi' [Habs [Hfr _]]]].
+    split; [|rewrite Habs; reflexivity].
+    destruct Hinv as [Hi [Hcs Hts]]. split; [exact Hi'|]. split.
+    + intros p n Hl. rewrite Hfr in Hl by (intros q E; inversion E as [[H1 H2]]; vm_compute in H1; discriminate). exact (Hcs p n Hl).
+    + unfold TmpShape, dir_or_absent in *. rewrite Hfr by (intros q E; inversion E as [[H1 H2]]; vm_compute in H1; discriminate). exact Hts.
+  - pose proof (opts_ok_wf_rec hash _ _ _ Hk) as Hw.
+    destruct (write_roundtrip hash HL f Sync (ws_a x) (ws_key x) (ws_data x) (ws_now x) Hinv Hw) as [_ [Hinv' [_ [_ [Hfr [m [Hm [M1 [M2 [M3 [M4 [M5 M6]]]]]]]]]]]].
+    split; [exact Hinv'|]. destruct (bytes_eqb k (ws_key x)) eqn:Ek.
+    + apply bytes_eqb_eq in Ek. subst k.
+      assert (abs_idx hash (snd (run (write hash Sync (ws_a x) (ws_key x) (ws_data x) (ws_now x)) f)) (ws_key x) = Some m) as Hkey.
+      { pose proof (find_run hash _ (ws_key x) (proj1 Hinv')) as E. rewrite Hm in E. congruence. }
+      rewrite Hkey. unfold new_entry, x_o', x_sri. cbn [o_sri o_time o_size o_meta o_raw]. f_equal.
+      destruct m as [mk ms mt mz mm mr]. cbn in M1, M2, M3, M4, M5, M6. subst. reflexivity.
+    + apply bytes_eqb_neq in Ek. exact (Hfr k Ek).
+Qed.
+
+Lemma serial_abs_idx xs : forall f k,
+  CacheInv f -> forallb (kv_ok hash) (map kv_of xs) = true ->
+  abs_idx hash (serial f xs) k = fold_left spec_step (map (x_hop hash) xs) (abs_idx hash f) k /\ CacheInv (serial f xs).
+Proof.
+  induction xs as [|x xs IH]; intros f k Hinv Hk; [split; [reflexivity|exact Hinv]|].
+  cbn [map forallb] in Hk. apply andb_true_iff in Hk as [Hk1 Hk2].
+  unfold serial. cbn [map fold_left]. fold (serial (kv_run hash f (kv_of x)) xs).
+  destruct (kv_step_abs f x k Hinv Hk1) as [Hinv' _].
+  destruct (IH (kv_run hash f (kv_of x)) k Hinv' Hk2) as [E Hc]. split; [|exact Hc]. rewrite E.
+  assert (forall E1 E2 : bytes -> option meta, (forall k, E1 k = E2 k) -> forall hs k, fold_left spec_step hs E1 k = fold_left spec_step hs E2 k) as Hext.
+  { intros E1 E2 He hs. revert E1 E2 He. induction hs as [|h hs IHh]; intros E1 E2 He k0; [apply He|].
+    cbn [fold_left]. apply IHh. intros k1. unfold spec_step. destruct h; destruct (bytes_eqb k1 key); try reflexivity; apply He. }
+  apply Hext. intros k1. exact (proj2 (kv_step_abs f x k1 Hinv Hk1)).
+Qed.
+
+Theorem serializable_mixed ops pl' rl' f' rs :
+  oreach (map (wprog hash) ws, map rprog ops, f0) (pl', rl', f') -> results pl' = Some rs ->
+  exists perm,
+    Permutation perm ws /\
+    rs = map (fun x => Ok (x_res hash x)) ws /\
+    (forall op, ranswer op f' = ranswer op (serial f0 perm)) /\
+    (forall j a, (j < List.length ops)%nat -> nth j rl' (Ret (OMeta Stuck)) = Ret a ->
+       exists n, (n <= List.length perm)%nat /\ a = ranswer (nth j ops (RMeta [])) (serial f0 (firstn n perm))).
+Proof.
+  intros Hr Hres.
+  destruct (OInv2_reach ops _ _ (OInv2_init ops) Hr) as [done [Hi [Hpv [Hm [Hlen Hst]]]]].
+  assert (GS ws f0 done f') as Hg by (exists pl'; auto).
+  pose proof Hi as [owns [Hnd [Hlt [Hlenp [Hlo [Hstw _]]]]]].
+  pose proof (results_some_ret pl' rs Hres) as Epl.
+  assert (forall i, (i < List.length ws)%nat -> nth i rs Stuck = Ok (x_res hash (nth i ws dw)) /\ In i done) as Hall.
+  { intros i Hi'. pose proof (Hstw i Hi') as Hs. rewrite Epl in Hs. rewrite (map_nth (@Ret (res integrity)) rs Stuck i) in Hs.
+    destruct (wst_ret hash _ _ _ _ _ Hs) as [E1 [E2 _]]. split; [exact E1|apply member_spec; exact E2]. }
+  assert (List.length rs = List.length ws) as Hlr by (rewrite <- Hlenp, Epl, map_length; reflexivity).
+  assert (Permutation done (seq 0 (List.length ws))) as Hperm.
+  { apply NoDup_Permutation; [exact Hnd|apply seq_NoDup|]. intros y. rewrite in_seq. split; [intros H; split; [lia|apply Hlt; exact H]|intros [_ H]; apply (Hall y H)]. }
+  assert (Permutation (sel ws done) ws) as Hp.
+  { unfold sel. pose proof (Permutation_map (fun i => nth i ws dw) Hperm) as H. rewrite (map_nth_seq ws dw) in H. exact H. }
+  (* the atomic answer at a ghost prefix is the answer after the sequential run of that prefix *)
+  assert (forall op d f1, (forall i, In i d -> In i done) -> GS ws f0 d f1 -> ranswer op f1 = ranswer op (serial f0 (sel ws d))) as Hans.
+  { intros op d f1 Hsub Hg1.
+    assert (forall x, In x (sel ws d) -> In x ws) as Hsubw.
+    { intros x Hx. unfold sel in Hx. apply in_map_iff in Hx as [i [<- Hin]]. apply nth_In. apply Hlt. apply Hsub. exact Hin. }
+    destruct op as [k|k]; unfold ranswer; f_equal.
+    - rewrite (atomic_read_spec d f1 k Hg1), (serial_read_spec (sel ws d) k Hsubw). reflexivity.
+    - destruct Hg1 as [pl1 [Hi1 _]].
+      destruct (PInvWd_index hash HL ws f0 d pl1 f1 (proj1 Hinv0) Hwf Hi1) as [Hidx [_ [Hdone Habs]]].
+      assert (forall i, In i d -> (i < List.length ws)%nat) as Hlt1 by (intros i Hin; exact (proj1 (Hdone i Hin))).
+      assert (forallb (kv_ok hash) (map kv_of (sel ws d)) = true) as Hok1.
+      { apply forallb_forall. intros o Ho. apply in_map_iff in Ho as [x [<- Hx]]. rewrite forallb_forall in Hok. apply Hok. apply in_map. apply Hsubw. exact Hx. }
+      destruct (serial_abs_idx (sel ws d) f0 k Hinv0 Hok1) as [Es Hcs].
+      rewrite (find_run hash f1 k Hidx), (find_run hash _ k (proj1 Hcs)). cbn [fst]. f_equal.
+      rewrite Habs, Es, (hops_sel ws d Hlt1). reflexivity. }
+  exists (sel ws done). split; [exact Hp|]. split.
+  { apply (nth_ext _ _ Stuck (Ok (x_res hash dw))); [rewrite map_length; exact Hlr|].
+    intros n Hn. rewrite Hlr in Hn. rewrite (proj1 (Hall n Hn)). symmetry. apply (map_nth (fun x => Ok (x_res hash x)) ws dw n). }
+  split; [intros op; exact (Hans op done f' (fun i H => H) Hg)|].
+  intros j a Hj Ha. pose proof (Hst j Hj) as H. rewrite Ha in H.
+  assert (forall n f1, (n <= List.length done)%nat -> GS ws f0 (firstn n done) f1 ->
+            exists n', (n' <= List.length (sel ws done))%nat /\
+              ranswer (nth j ops (RMeta [])) f1 = ranswer (nth j ops (RMeta [])) (serial f0 (firstn n' (sel ws done)))) as Hpos.
+  { intros n f1 Hn Hg1. exists n. split; [unfold sel; rewrite map_length; exact Hn|].
+    rewrite (Hans _ (firstn n done) f1 (fun i Hin => firstn_in _ _ _ Hin) Hg1). unfold sel. rewrite firstn_map. reflexivity. }
+  remember (Ret a) as r eqn:Er. destruct H as [|k n f1 Eo Hn Hg1 Hm1|n f1 Hn Hg1].
+  - exfalso. destruct (nth j ops (RMeta [])) as [k|k]; unfold rprog in Er.
+    + destruct (read_head hash k) as [k1 [E _]]. rewrite E in Er. discriminate.
+    + destruct (find_head k) as [k1 [g [E _]]]. rewrite E in Er. discriminate.
+  - destruct (Hpos n f1 Hn Hg1) as [n' [Hn' E]]. exists n'. split; [exact Hn'|]. rewrite <- E, Eo. unfold ranswer.
+    destruct (phase2 hash k f1) as [v|c0 k0] eqn:Ep; [|discriminate]. cbn [bind] in Er. unfold wrapB in Er. injection Er as <-.
+    rewrite (phase2_run hash k f1 (proj1 (gs_facts _ f1 Hg1))), Ep. reflexivity.
+  - destruct (Hpos n f1 Hn Hg1) as [n' [Hn' E]]. exists n'. split; [exact Hn'|]. rewrite <- E. injection Er as <-. reflexivity.
+Qed.
+
 End Pool.
 End CS.
